@@ -95,3 +95,17 @@ Theorem C14_amino_name_is_source : forall b, ImpProofs.is_byte b ->
   ImpGen.imp_sequtil_AminoName b = ImpProofs.of_outcome (amino_name b).
 Proof. exact ImpProofs.imp_AminoName. Qed.
 Print Assumptions C14_amino_name_is_source.
+
+(* The codon table and the amino-acid names the model uses (read out of the running
+   implementation) are the two map literals of amino.go, as translated from the source:
+   the same amino acid for every key (0, the zero value of a missing key, elsewhere), the
+   same names for every byte. *)
+Theorem C14_codon_table_is_source : forall k,
+  Bio.Model.GoGlobals.g_sequtil_codonToAmino k = ImpProofs.lit_codon k.
+Proof. exact ImpProofs.codon_table_is_source. Qed.
+Print Assumptions C14_codon_table_is_source.
+
+Theorem C14_amino_names_are_source : forall b, ImpProofs.is_byte b ->
+  Bio.Model.GoGlobals.g_sequtil_aminoToName b = ImpProofs.lit_amino b.
+Proof. exact ImpProofs.amino_table_is_source. Qed.
+Print Assumptions C14_amino_names_are_source.
